@@ -39,6 +39,7 @@ func init() {
 	reg("C04.R2", "C04", "call-site and function-object operand protocol: callee, positionals, (name, value) keyword pairs, *args, **kwargs, opcode by star-forms, packed argc; decorators first, then defaults, kw-defaults, annotations, names tuple, closure, code, qualname, MAKE_FUNCTION/MAKE_CLOSURE, decorator calls"+how, 4)
 	reg("C19.R5", "C19", "import code schemes: one IMPORT_NAME per alias/module with (level, fromlist) constants, IMPORT_FROM + store per name, final POP_TOP, IMPORT_STAR; dotted `import a.b` binds a, `import a.b as c` walks attributes"+how, 2)
 	reg("C20.R2", "C20", "echo protocol (compiler half): PRINT_EXPR only for expression statements of the interactive top level (interactive && depth<=1), POP_TOP otherwise, nothing for constant expression statements"+how, 1)
+	reg("C12.R8", "C12", "scope prologues and epilogues (compileAst per scope kind): module and class bodies go through docString, the interactive top level does not; class bodies store __module__/__qualname__ first and return the __class__ cell when needed; comprehensions load their iterator argument, build the result and return it; every scope ends in RETURN_VALUE exactly once (implicit `return None` only when the stream does not already end in one)"+how, 8)
 	register(&Rule{ID: "C12.R5", Prop: "C12", Floor: 40,
 		Doc: "block and loop-stack balance in the emitter: on every non-panicking path of every node form, c.loops.Push/Pop are balanced (also inside each loop iteration) and every SETUP_LOOP/EXCEPT/FINALLY/WITH emission is matched by exactly one POP_BLOCK",
 		Run: runEmitBalance})
@@ -123,10 +124,14 @@ func runEmitSpec(c *Ctx, r *Rep, prop string) {
 	}
 	seen := map[string]bool{}
 	for _, a := range arms {
-		if a.method == "compileAst" {
-			continue // scope prologues/epilogues: C12.R8 / C03
-		}
 		owner := armOwner[a.arm]
+		if a.method == "compileAst" {
+			// scope prologues/epilogues: the interactive top level belongs to the echo protocol, the others to C12.R8
+			owner = "C12"
+			if a.arm == "*ast.Interactive" {
+				owner = "C20"
+			}
+		}
 		if owner == "" && a.arm != "default" && a.arm != "" {
 			if prop == "C01" { // an arm nobody owns is reported once
 				r.undecided("compile|"+a.method+"|arm "+a.arm, token.NoPos, "node form %s has no reference scheme: new syntax needs a spec row", a.arm)
@@ -158,7 +163,14 @@ func runEmitSpec(c *Ctx, r *Rep, prop string) {
 	// every spec'd arm of this property must still exist
 	for k := range emitSpec {
 		parts := strings.SplitN(k, "|", 2)
-		if armOwner[parts[1]] == prop && !seen[k] && parts[0] != "compileAst" {
+		own := armOwner[parts[1]]
+		if parts[0] == "compileAst" {
+			own = "C12"
+			if parts[1] == "*ast.Interactive" {
+				own = "C20"
+			}
+		}
+		if own == prop && !seen[k] {
 			r.bad("compile|"+k, token.NoPos, "node form %s is no longer compiled by %s (no non-panicking path)", parts[1], parts[0])
 		}
 	}
